@@ -130,6 +130,56 @@ Theorem C12_reject_noop_core_any_rule : forall rl known st b f r st',
 Proof. exact core_ff_gen_reject_noop. Qed.
 Print Assumptions C12_reject_noop_core_any_rule.
 
+(* SEQUENCES of interactions on one node.  Node.fastForward is retried while the node is CatchingUp;
+   nothing of the decision is carried from one call to the next.  After any prefix of calls whose
+   outcomes are "quiet" - the response was refused by the checks, or it passed them and
+   proxy.Restore then failed, so that nothing was applied - the node, its application and the sets it
+   knows are exactly as they were, and the next call answers exactly as it would on the untouched
+   node.  (A tree that remembers "this block was already checked" and then skips the frame-hash test
+   for a replayed block with another frame - seeded/C12 - breaks this: harness NS lines.) *)
+Theorem C12_decision_independent_of_history : forall genesis known ns prefix s rs nsf kf,
+  node_seq genesis known ns prefix = (rs, nsf, kf) ->
+  Forall quiet rs ->
+  (nsf = ns /\ kf = known) /\
+  fst (fst (node_seq genesis known ns (prefix ++ [s]))) =
+    rs ++ [fst (node_step known ns (st_answers s) (st_restore_ok s))] /\
+  snd (fst (node_seq genesis known ns (prefix ++ [s]))) =
+    snd (node_step known ns (st_answers s) (st_restore_ok s)).
+Proof.
+  exact (fun genesis known ns prefix s rs nsf kf H HQ =>
+    conj (match node_seq_quiet_prefix genesis known ns prefix [s] rs nsf kf H HQ with
+          | conj a (conj b _) => conj a b end)
+         (node_decision_independent_of_history genesis known ns prefix s rs nsf kf H HQ)).
+Qed.
+Print Assumptions C12_decision_independent_of_history.
+
+(* one call with a succeeding Restore is Node.fastForward of the theorems above *)
+Theorem C12_node_step_is_fast_forward : forall known ns l,
+  node_step known ns l true =
+    match node_ff_fixed known ns l with
+    | (Some r, ns') => (NRes r, ns')
+    | (None, ns') => (NNone, ns')
+    end.
+Proof. exact node_step_is_node_ff_fixed. Qed.
+Print Assumptions C12_node_step_is_fast_forward.
+
+(* core level: the decisions of a sequence of core.fastForward calls, and the known sets at its
+   end, are a function of the responses and of the initially known sets alone - whatever the core's
+   state; the known sets change by ADOPTIONS only, to
+   known_after genesis f = [frame.Peers; genesis peers; latest set of frame.PeerSets] ++ frame.PeerSets
+   (c.peers, c.genesisPeers - never written -, c.validators, the store's table after Store.Reset) *)
+Theorem C12_core_decisions_independent_of_state : forall genesis known st1 st2 l,
+  fst (fst (core_seq genesis known st1 l)) = fst (fst (core_seq genesis known st2 l)) /\
+  snd (core_seq genesis known st1 l) = snd (core_seq genesis known st2 l).
+Proof. exact core_seq_state_blind. Qed.
+Print Assumptions C12_core_decisions_independent_of_state.
+
+Theorem C12_known_sets_evolution : forall genesis f v,
+  (mem_key v genesis = true -> in_known (known_after genesis f) v = true) /\
+  (mem_key v (peers_digest (ff_peers f)) = true -> in_known (known_after genesis f) v = true).
+Proof. exact (fun genesis f v => conj (known_after_genesis genesis f v) (known_after_peers genesis f v)). Qed.
+Print Assumptions C12_known_sets_evolution.
+
 (** * 2. Regression witnesses: the rule before a556752 / 52c591c / a41e4c4 *)
 
 (* what that rule did guarantee: digests, and more than TrustCount verifying map ENTRIES *)
@@ -212,3 +262,16 @@ Example C12_example :
   node_ff_fixed w_known w_ns0 [None; Some w_tampered; None; None] = (Some FFNotEnoughSigs, w_ns0) /\
   ns_app (snd (node_ff_fixed w_known w_ns0 [None; Some (mkResp w_good_block w_frame4 9)])) = [9].
 Proof. vm_compute. repeat split; reflexivity. Qed.
+
+(* a two-step sequence: the honest response passes the checks but Restore fails (nothing applied); the
+   same block with a frame that hashes differently is then refused, node untouched; the honest
+   response again, Restore working, is adopted *)
+Example C12_sequence_example :
+  node_seq [0; 1; 2; 3] w_known w_ns0
+    [mkStep [None; Some (mkResp w_good_block w_frame4 9)] false;
+     mkStep [None; Some (mkResp w_good_block (mkFrame w_set4 77 1 [(0, w_set4)]) 9)] true;
+     mkStep [None; Some (mkResp w_good_block w_frame4 9)] true]
+  = ([NRestoreFailed; NRes FFBadFrameHash; NRes FFOk],
+     mkNode (mkCore (HgReset w_good_block w_frame4) w_set4 w_set4 0) [9] true,
+     known_after [0; 1; 2; 3] w_frame4).
+Proof. vm_compute. reflexivity. Qed.
